@@ -76,8 +76,16 @@ def known(ctx: Any) -> List[Ob]:
     if len(call) == 1 and isinstance(call[0].args[0], ast.IfExp):
         e = call[0].args[0]
         t = e.test
-        zero = isinstance(t, ast.Compare) and norm(t.left) == now and isinstance(t.ops[0], ast.Eq) and ctx.prog.try_fold(wt.module, t.comparators[0]) == (True, 0)
-        ok = zero and norm(e.body) == f'{rec}.ttl' and isinstance(e.orelse, ast.Call) and call_name(e.orelse) == 'get_remaining_ttl' and [norm(a) for a in e.orelse.args] == [now]
+        # (now == 0) ? ttl : remaining  -- or the mirrored (now != 0) ? remaining : ttl
+        zero = nonzero = False
+        if isinstance(t, ast.Compare) and len(t.ops) == 1:
+            sides = [t.left, t.comparators[0]]
+            has_now = any(norm(x) == now for x in sides)
+            has_0 = any(ctx.prog.try_fold(wt.module, x) == (True, 0) for x in sides if norm(x) != now)
+            zero = has_now and has_0 and isinstance(t.ops[0], ast.Eq)
+            nonzero = has_now and has_0 and isinstance(t.ops[0], ast.NotEq)
+        full, rem = (e.body, e.orelse) if zero else (e.orelse, e.body)
+        ok = (zero or nonzero) and norm(full) == f'{rec}.ttl' and isinstance(rem, ast.Call) and call_name(rem) == 'get_remaining_ttl' and [norm(a) for a in rem.args] == [now]
     obs.append(ob(R, wt, call[0] if call else '_write_int', 'the TTL written is the record TTL for time 0 and the remaining TTL at the given time otherwise', ok))
     # answers written with their own time
     wa = prog.func('zeroconf._protocol.outgoing.DNSOutgoing._write_answers_from_offset')
@@ -250,7 +258,10 @@ def qufirst(ctx: Any) -> List[Ob]:
     # start-up: first request flag is `no start-up query sent yet`
     su = prog.func('zeroconf._services.browser.QueryScheduler._process_startup_queries')
     calls = [c for c in walk_local_ordered(su.node) if isinstance(c, ast.Call) and call_name(c) == 'async_send_ready_queries']
-    ok = len(calls) == 1 and isinstance(calls[0].args[0], ast.Compare) and self_attr(calls[0].args[0].left, su.params[0]) == '_startup_queries_sent' and isinstance(calls[0].args[0].ops[0], ast.Eq) and norm(calls[0].args[0].comparators[0]) == '0'
+    ok = False
+    if len(calls) == 1 and isinstance(calls[0].args[0], ast.Compare) and isinstance(calls[0].args[0].ops[0], ast.Eq):
+        sides = [calls[0].args[0].left, calls[0].args[0].comparators[0]]
+        ok = any(self_attr(x, su.params[0]) == '_startup_queries_sent' for x in sides) and any(norm(x) == '0' for x in sides)
     obs.append(ob(R, su, calls[0] if calls else 'async_send_ready_queries', 'only the very first start-up query counts as the first request', ok))
     rt = prog.func('zeroconf._services.browser.QueryScheduler._process_ready_types')
     calls = [c for c in walk_local_ordered(rt.node) if isinstance(c, ast.Call) and call_name(c) == 'async_send_ready_queries']
